@@ -406,6 +406,13 @@ func c11Exec(r *vf.Run, k c11Case, dir string) []finding {
 			add(fmt.Sprintf("render-error/%s/op=%s", cfgCls, c11Ops[op]), "%s: op %d (%s) failed: %v; ops=%v", cfgCls, step, c11Ops[op], operr, opNames(k.Ops))
 			continue
 		}
+		if step > 0 && ref != nil {
+			r.Outcome("reached/compared/op=" + c11Ops[op])
+			r.Outcome("reached/compared/shape=" + c11Shapes[k.Cfg.Shape])
+			if c11HasFile(k.Cfg.Shape) {
+				r.Outcome("reached/compared/src=" + c11Srcs[k.Cfg.Src])
+			}
+		}
 		compare(c11Ops[op], step, got, ks)
 	}
 	return out
@@ -430,6 +437,16 @@ func init() {
 				r.Incomplete("runtime map-iteration seam not available with this toolchain: map order is sampled, not enumerated")
 			}
 			if r.Fork(r.Workers) {
+				for _, n := range c11Ops[:7] {
+					r.Reached("reached/compared/op=" + n)
+				}
+				for _, n := range c11Shapes {
+					r.Reached("reached/compared/shape=" + n)
+				}
+				for _, n := range c11Srcs {
+					r.Reached("reached/compared/src=" + n)
+				}
+				r.Reached("identical-after-failed-render")
 				return
 			}
 			dir := c11TmpDir()
